@@ -666,6 +666,14 @@ fn pseudo_block(order: &[&str], r: Option<&mut Rng>) -> Vec<u8> {
     let mut enc = Encoder::new();
     let mut out = Vec::new();
     let mut rng = r;
+    // a block may open with a dynamic table size update (RFC 7541 4.2); together with the
+    // back-reference below this makes the block sensitive to decoder state that another
+    // connection could have left behind
+    if let Some(r) = rng.as_deref_mut() {
+        if r.chance(1, 4) {
+            enc.size_update(&mut out, *r.pick(&[0usize, 64, 4096, 4096]));
+        }
+    }
     for name in order {
         let value = match *name {
             ":method" => "GET",
@@ -698,6 +706,15 @@ fn pseudo_block(order: &[&str], r: Option<&mut Rng>) -> Vec<u8> {
     };
     for (k, v) in extra.iter().take(n) {
         enc.field(&mut out, k.as_bytes(), v.as_bytes(), Repr::lit(Indexing::Incremental, true, true));
+    }
+    if let Some(r) = rng.as_deref_mut() {
+        if r.chance(1, 3) {
+            // a field inserted into the dynamic table and referred back to by its index (62 in a
+            // fresh table; sent as a literal again when the table has no room for it)
+            let v = format!("v{}", r.below(1000));
+            enc.field(&mut out, b"x-ref", v.as_bytes(), Repr::lit(Indexing::Incremental, false, false));
+            enc.field(&mut out, b"x-ref", v.as_bytes(), Repr::Indexed);
+        }
     }
     out
 }
@@ -1095,6 +1112,87 @@ pub fn run(ctx: &mut Ctx) {
         });
         ctx.judge(res.is_ok(), &[], "panic in the Akamai extractors on malformed frames", || json!({"bytes_hex": hex(&v), "cuts": cuts, "panic": res.clone().err()}));
         ctx.class("crash-only/malformed-frames");
+    }
+    oversized_frames(ctx);
+}
+
+/// Streams with a frame larger than the default SETTINGS_MAX_FRAME_SIZE (16385..20000 octets of
+/// payload) in front of, between or behind the frames that matter.  What the fingerprint of such
+/// a stream is lies outside the reference's domain, but the incremental rule does not need it:
+/// whatever the one-shot extraction makes of the bytes received so far is what the incremental
+/// extractor has to report, once, on the first chunk for which the one-shot extraction of the
+/// prefix yields a fingerprint.
+fn oversized_frames(ctx: &mut Ctx) {
+    let n = ctx.scale(400, 6000, 1) / ctx.nshards as u64 + 1;
+    let mut r = ctx.rng(177);
+    for _ in 0..n {
+        let mut parts: Vec<Vec<u8>> = Vec::new();
+        let prof = PROFILES[r.usize(PROFILES.len())];
+        parts.push(g::settings(prof.1));
+        if r.chance(2, 3) {
+            parts.push(g::window_update(0, prof.2));
+        }
+        for _ in 0..r.below(3) {
+            parts.push(g::priority(3 + 2 * r.below(5) as u32, PrioritySpec { exclusive: r.chance(1, 2), dependency: 0, weight: r.u8() }));
+        }
+        if r.chance(1, 2) {
+            let block = pseudo_block(&[":method", ":authority", ":scheme", ":path"], Some(&mut r));
+            parts.push(g::headers_frames(&block, &HeadersOpts::plain(1)));
+        }
+        // the oversized frame: an extension type, DATA on an idle stream, or a padded PING-like blob
+        let big_len = 16385 + r.usize(3700);
+        let big = g::frame(*r.pick(&[0x0bu8, 0x10, 0x00, 0xfe]), 0, if r.chance(1, 2) { 0 } else { 1 }, &vec![0x5a; big_len]);
+        let pos = r.usize(parts.len() + 1);
+        parts.insert(pos, big);
+        let mut bytes = if r.chance(1, 2) { g::PREFACE.to_vec() } else { Vec::new() };
+        for p in &parts {
+            bytes.extend_from_slice(p);
+        }
+        // chunkings: whole, at frame boundaries, random
+        let mut bounds = Vec::new();
+        let mut o = bytes.len() - parts.iter().map(|p| p.len()).sum::<usize>();
+        for p in &parts {
+            o += p.len();
+            bounds.push(o);
+        }
+        for variant in 0..4 {
+            let mut ends: Vec<usize> = match variant {
+                0 => vec![],
+                1 => bounds.clone(),
+                2 => (0..1 + r.below(5)).map(|_| r.range(1, bytes.len() as u64 - 1) as usize).collect(),
+                _ => bounds.iter().map(|b| b.saturating_sub(r.usize(9))).filter(|b| *b > 0).collect(),
+            };
+            ends.push(bytes.len());
+            ends.sort_unstable();
+            ends.dedup();
+            let run = rt::guard(|| {
+                let mut ex = Http2FingerprintExtractor::new();
+                let mut got = Vec::new();
+                let mut want = Vec::new();
+                let mut prev = 0usize;
+                let mut seen = false;
+                for &e in &ends {
+                    got.push(ex.add_bytes(&bytes[prev..e]).ok().flatten().map(|f| (f.fingerprint, f.hash)));
+                    let os = extract_akamai_fingerprint_from_bytes(&bytes[..e]).map(|f| (f.fingerprint, f.hash));
+                    want.push(if seen { None } else { os.clone() });
+                    seen |= os.is_some();
+                    prev = e;
+                }
+                (got, want)
+            });
+            match run {
+                Ok((got, want)) => {
+                    ctx.judge(got == want, &[], "incremental extractor differs from the one-shot extraction of the bytes received so far (stream with an oversized frame)", || {
+                        json!({"frames": parts.iter().map(|p| json!({"type": p[3], "payload_octets": p.len() - 9})).collect::<Vec<_>>(), "oversized_frame_position": pos, "chunk_ends": ends,
+                               "incremental": got, "one_shot_on_prefixes": want, "bytes_hex_head": hex(&bytes[..bytes.len().min(96)])})
+                    });
+                    ctx.bucket(&format!("oversized/pos{}of{}/chunking{variant}/{}", pos, parts.len(), if want.iter().any(|w| w.is_some()) { "fingerprint" } else { "none" }));
+                }
+                Err(p) => {
+                    ctx.judge(false, &[], "panic in the Akamai extractors on a stream with an oversized frame", || json!({"panic": p, "chunk_ends": ends}));
+                }
+            }
+        }
     }
 }
 
